@@ -89,27 +89,35 @@ func SendMissingStz(lastSent int, s Sender, uaq *stanza.UnAckQueue) error {
 		return nil
 	}
 	uaq.RWMutex.Lock()
-	if len(uaq.Uslice) <= 0 {
-		uaq.RWMutex.Unlock()
+	// The peer has handled the lastSent oldest stanzas of the session; uaq.Acked of them left the queue earlier.
+	acked := lastSent - uaq.Acked
+	if acked < 0 {
+		acked = 0
+	}
+	if acked > len(uaq.Uslice) {
+		acked = len(uaq.Uslice)
+	}
+	// Remove sent stanzas from the queue
+	uaq.PopN(acked)
+	// Take out the non acknowledged stanzas: sending them again puts them back on the queue, as new stanzas
+	// of the session (the peer counts every transmission).
+	missing := uaq.PopN(len(uaq.Uslice))
+	uaq.Acked += acked + len(missing)
+	uaq.RWMutex.Unlock()
+
+	if len(missing) == 0 {
 		return nil
 	}
-	last := uaq.Uslice[len(uaq.Uslice)-1]
-	if last.Id > lastSent {
-		// Remove sent stanzas from the queue
-		uaq.PopN(lastSent - last.Id)
-		// Re-send non acknowledged stanzas
-		for _, elt := range uaq.PopN(len(uaq.Uslice)) {
-			eltStz := elt.(*stanza.UnAckedStz)
-			err := s.SendRaw(eltStz.Stz)
-			if err != nil {
-				return err
-			}
-
+	// Re-send non acknowledged stanzas
+	for _, elt := range missing {
+		eltStz := elt.(*stanza.UnAckedStz)
+		err := s.SendRaw(eltStz.Stz)
+		if err != nil {
+			return err
 		}
-		// Ask for updates on stanzas we just sent to the entity. Not sure I should leave this. Maybe let users call ack again by themselves ?
-		s.Send(stanza.SMRequest{})
 	}
-	uaq.RWMutex.Unlock()
+	// Ask for updates on stanzas we just sent to the entity. Not sure I should leave this. Maybe let users call ack again by themselves ?
+	s.Send(stanza.SMRequest{})
 	return nil
 }
 
